@@ -78,7 +78,7 @@ def setInstrument (s : State) (k idx : Nat) (version : Nat) (i : AInst) : State 
 /-- OPNMIDIplay::LoadBank on an accepted image: bclear, then `m_insBanks[bankno]` per bank in file order -/
 def loadBanks (s : State) (f : Wopn.WFile) : State :=
   let put (perc : Nat) (s : State) (b : Wopn.Bank) : State :=
-    let k := keyOf perc (b.msb % 128) (b.lsb % 128)     -- bank numbers are reduced to their 7 bits
+    let k := keyOf perc (b.msb % 128) b.lsb     -- the MSB is reduced to its 7 bits; the LSB keeps 8 (128..255: XG SFX kits)
     let s := (binsert s k (List.replicate 128 AInst.zero)).1
     bupdate s k (fun _ => b.ins.map ofWopn)
   let s := bclear s
